@@ -27,6 +27,7 @@ Inductive op :=
 | OAdd (name : string) (u : uq) (x : float)
 | ORt (name : string) (u : uq) (x : float)       (* set_X(u, x); get_X(u) *)
 | OAg (name : string) (u : uq) (x : float)       (* get_X(u); add_X(u, x); get_X(u) *)
+| OAddN (name : string) (u : uq) (x : float) (n : nat)   (* add_X(u, x) n times, as a route of n edges does *)
 | OGetF (name : string) | OGetI (name : string) | OGetU (name : string) | OGetB (name : string)
 | OSetF (name : string) (x : float) | OSetI (name : string) (z : Z) | OSetU (name : string) (z : Z)
 | OSetB (name : string) (b : bool)
@@ -46,8 +47,19 @@ Definition show_state (st : list float) : string := show_list show_float st.
 Definition show_obs (o : obs) : string :=
   let 'Obs r st := o in show_res show_oval r ++ " st=" ++ show_state st.
 
-Definition show_struct (len : nat) (names : list string) (idx : list (option nat)) (init : res (list float)) : string :=
-  "R=Ok len=" ++ show_nat len ++ " names=" ++ show_list (fun s => s) names
+(* kind, unit (Rust variant identifier) / custom type, label and codec of a feature *)
+Definition show_kind {A} (f : feature A) : string :=
+  match f with
+  | FDistance u _ => "distance:" ++ dist_name u
+  | FTime u _ => "time:" ++ time_name u
+  | FEnergy u _ => "energy:" ++ energy_name u
+  | FCustom ty un fm => "custom:" ++ ty ++ "/" ++ un ++ "/"
+                        ++ match fm with FFloat _ => "f" | FSigned _ => "i" | FUnsigned _ => "u" | FBool _ => "b" end
+  end.
+Definition show_struct {A} (len : nat) (feats : list (string * feature A)) (idx : list (option nat))
+           (init : res (list float)) : string :=
+  "R=Ok len=" ++ show_nat len ++ " names=" ++ show_list (fun s => s) (map fst feats)
+  ++ " kinds=" ++ show_list (fun nf => show_kind (snd nf)) feats
   ++ " idx=" ++ show_list (show_option show_nat) idx ++ " init=" ++ show_res show_state init.
 
 (* ------------------------------------------------------------------ M: the model in binary64 *)
@@ -93,6 +105,15 @@ Definition run_op (sm : fsm) (st : fstate) (o : op) : obs :=
                  end
       | r => obs_of VF st r
       end
+  | OAddN n u x k =>
+      (fix go (k : nat) (cur : fstate) : obs :=
+         match k with
+         | O => Obs (Ok VNone) cur
+         | S k' => match radd sm cur n u x with
+                   | Ok cur' => go k' cur'
+                   | r => upd cur r
+                   end
+         end) k st
   | OGetF n => obs_of VF st (get_custom_f64 FN sm st n)
   | OGetI n => obs_of VZ st (get_custom_i64 FN trunc_F sm st n)
   | OGetU n => obs_of VZ st (get_custom_u64 FN trunc_F sm st n)
@@ -118,7 +139,7 @@ Definition payload_m (cfg : entries float) (probes : list string) (q : step) : s
   match build_search_instance (new cfg) tm am user with
   | Ok sm =>
       let init := initial_state FN Z2F sm in
-      join " | " (show_struct (len sm) (get_names sm) (map (get_index sm) probes) init
+      join " | " (show_struct (len sm) (iter sm) (map (get_index sm) probes) init
                   :: match init with Ok st => run_ops sm st ops | _ => [] end)
   | r => "R=" ++ show_res (fun _ => "") r
   end.
@@ -238,7 +259,19 @@ Definition judge (s : entries float) (pre : list float) (p : op) (o : obs) : str
         match r, nth_error post i with
         | Ok VNone, Some w =>
             verdict o [("only its own slot", frame_ok i pre post); ("finite", finite w);
+                       ("a zero increment leaves the value as it is", negb (Qeq_bool (qf x) 0) || Qeq_bool (qf w) (qf v));
                        ("slot + converted increment", close eps (Qabs (qf v) + Qabs (qf x * kin)) (qf w) (qf v + qf x * kin))]
+        | _, _ => reject "expected Ok" o
+        end)
+  | OAddN n u x k =>
+      unitful n u (fun i fu v kin kout =>
+        let total := inject_Z (Z.of_nat k) * (qf x * kin) in
+        match r, nth_error post i with
+        | Ok VNone, Some w =>
+            verdict o [("only its own slot", frame_ok i pre post); ("finite", finite w);
+                       ("zero increments leave the value as it is", negb (Qeq_bool (qf x) 0) || Qeq_bool (qf w) (qf v));
+                       ("slot + n converted increments (no drift)",
+                        close eps (Qabs (qf v) + Qabs total) (qf w) (qf v + total))]
         | _, _ => reject "expected Ok" o
         end)
   | ORt n u x =>
@@ -256,6 +289,11 @@ Definition judge (s : entries float) (pre : list float) (p : op) (o : obs) : str
         | Ok (VFF y0 y1) =>
             verdict o [("only its own slot", frame_ok i pre post); ("finite", finite y0 && finite y1);
                        ("reading before", close eps (Qabs (qf v * kout)) (qf y0) (qf v * kout));
+                       ("slot + converted increment",
+                        match nth_error post i with
+                        | Some w => finite w && close eps (Qabs (qf v) + Qabs (qf x * kin)) (qf w) (qf v + qf x * kin)
+                        | None => false
+                        end);
                        ("reading after = before + increment within the C09 bound",
                         Qle_bool (Qabs (qf y1 - (qf y0 + qf x))) (UnitsRun.tol * Qabs (qf x) + eps * (Qabs (qf y0) + Qabs (qf x))))]
         | _ => reject "expected Ok values" o
@@ -284,7 +322,7 @@ Definition payload_s (cfg : entries float) (probes : list string) (q : step) (os
   match SMS.build cfg tm am user with
   | Ok s =>
       let init := SMS.initial_state FN Z2F s in
-      join " | " (show_struct (List.length s) (map fst s) (map (SMS.position (map fst s)) probes) (Ok init)
+      join " | " (show_struct (List.length s) s (map (SMS.position (map fst s)) probes) (Ok init)
                   :: judge_ops s init ops os)
   | r => "R=" ++ show_res (fun _ => "") r
   end.
